@@ -240,6 +240,17 @@ impl Machine {
         L(v)
     }
 }
+impl Machine {
+    /// addresses whose DATA differs from the initial image (initialisation masks ignored)
+    pub fn mem_data_diff(&self) -> Tree {
+        let mut v = vec![];
+        for a in 0..=u16::MAX {
+            let w = self.sim.mem[a];
+            if w.get() != self.initial_mem[a as usize].get() { v.push(L(vec![i(a), i(w.get())])); }
+        }
+        L(v)
+    }
+}
 pub fn b_(x: bool) -> Tree { b(x) }
 
 fn range_of(t: &TimerDevice) -> (u32, u32) {
